@@ -780,6 +780,9 @@ def z2s_kernel(
         elif k > 0:
             K[n] = k
             A[n] = (zr[k] + Z[n]) / (zr[k] - zr[k - 1])
+        elif zr.size == 1:  # Single level, no level above to interpolate with
+            K[n] = 0
+            A[n] = 0
         # if k = 0, k = a = 1 by declaration
     return K, A
 
